@@ -2,7 +2,8 @@
 
 Decides: context args in the hash input but not in the body call (R1); inherit iff unset, replace
 never merge (R2); the frame carries the updated context (R3); the prevent-flag raise dominates the
-dispatch (R4); sibling reference constructions agree (R5).
+dispatch (R4); sibling reference constructions agree (R5); the frame leaves the call stack on every way
+out of its invocation (R6).
 
 The clauses are decided on meanings, not spellings: objects are followed through aliases to the
 definition that created them (`origin`), guards are read off the path conditions (`FA.conditions`)
@@ -1727,3 +1728,20 @@ def check(ck):
 
     # ---- R5
     sibling_reference_sites(ck, R5)
+
+    # ---- R6: the calling frame is what nested calls inherit context args and the prevent flag from, so a frame must not
+    # outlive its invocation: once it is pushed, every way out of memento_run_local (an exception that memento lets
+    # escape included) passes the pop, and what is pushed is the frame built for this invocation.  This is the push /
+    # pop typestate of the call stack, decided by reachability on the graph in which every call may raise
+    # (c10._r2: try/finally, a scope class, an exit stack, a generator context manager written out are all read).
+    R6 = "C16.R6"
+    ck.rule(R6, "the frame that carries a call's recursive context is on the thread's call stack for the duration of that call "
+                "only: once pushed, no way out of memento_run_local (exceptions included) misses the pop", 3)
+    from .c10 import _r2 as frame_typestate
+    n0 = len(ck.obs)
+    ck.run(frame_typestate, ck, R6)
+    for o in ck.obs[n0:]:
+        if o.rule == R6 and o.verdict == "violation":
+            o.msg += (": the frame stays on the thread's call stack with its recursive context, so the next call on that thread takes it for "
+                      "its caller - it inherits the finished call's context args (and is keyed and stored under them) or is refused because "
+                      "further calls were prevented")
